@@ -19,7 +19,8 @@ def main():
     mod = importlib.import_module(pid.lower())
     if "--replay" in args:
         path = args[args.index("--replay") + 1]
-        return mod.replay(path)
+        import replaylib
+        return replaylib.replay(pid, path)
     return mod.main(tier, seed)
 
 
